@@ -84,8 +84,13 @@ func c18ExprExec(c *mon.Case) {
 	var occ []string
 	varsInOrder(tree, &occ)
 	want := dedupeCI(occ)
+	reused := parsers.NewExpressionParser()
+	reused.ParseString("zz_earlier + yy_earlier * Min(1, 2)")
 	for i, src := range printings(tree, seed) {
 		p := parsers.NewExpressionParser()
+		if i%2 == 1 {
+			p = reused // every other printing goes to a parser that has parsed other expressions before
+		}
 		var err error
 		if pn := mon.Try(func() { err = p.ParseString(src) }); pn != nil {
 			c.FailPanic("ParseString", pn)
